@@ -73,6 +73,12 @@ def analyse_one(prog, module, clsname, rep):
             extra_loops = [l for l in c.loops if l not in entry.loops]
             extra_guards = [g for g in c.guards if g not in entry.guards]
             only_none_guard = all(_is_not_none_guard(g) for g in extra_guards)
+            truthy = [g for g in extra_guards if g[1] is True and any(a.op == "attr" and a.args[1] == "check_interrupt" for a in tm.alts(g[0]))]
+            if truthy and all(_is_not_none_guard(g) or g in truthy for g in extra_guards) and not extra_loops:
+                rep.violated("R-C20-a", "%s@%d" % (c.fi.fq, c.line), cons, "the callback is consulted only when it is TRUTHY (`if self.check_interrupt:`): a callable object whose bool() is False "
+                             "(one that defines __bool__ / __len__, e.g. a cancellation token that is falsy until it fires, an empty hook list with __call__) is never called, so the exception it would raise never happens",
+                             witness={"history": "check_interrupt = an object with __call__ raising KeyboardInterrupt and __bool__ returning False: calculate returns normally"})
+                continue
             in_task_fn = c.fi in info.task_fis
             ok = not extra_loops and only_none_guard and in_task_fn
             rep.check(ok, "R-C20-a", "%s@%d" % (c.fi.fq, c.line), cons, "one call, no loop, guarded only by `check_interrupt is not None`",
@@ -159,8 +165,6 @@ def _is_not_none_guard(g):
         other = c.args[1] if c.args[2] == tm.NONE else c.args[2]
         if other.op == "attr" and other.args[1] == "check_interrupt":
             return pol is (c.args[0] == "is not")
-    if c.op == "attr" and c.args[1] == "check_interrupt" and pol is True:
-        return True
     if c.op == "call" and tm.callee_name(c) == "builtins.callable" and pol:
         return True
     return False
